@@ -25,7 +25,7 @@ EXPLANATION = (
     'positions, advancing by the content length; (e) the item and authentication factories are keyed by the name the '
     'registered class hard-wires; (f) tag lists, simple authentication and bearer tokens are read at the positions '
     'and widths at which they are written. Not decided: value round trips.')
-EXPLANATION_ADDED = ("(g) every composite entry becomes one item of the class registered for its encoding, told that encoding, given exactly the content slice, appended once; (h) data-MIME / accept-MIME items and the authentication item are written as encoded headers (plus the authentication's own bytes) and read back through the header parser with the cursor advanced by what it consumed; lookup functions index their table with the argument unchanged; length guards are exact on both sides; writers in accumulator style are lowered as well. (i) the three extension parsers read their input to the end: the loop test is cursor < len(input) as linear forms; indexing a bytes object and bytes()/bytearray() copies are lowered like the struct reads they replace.")
+EXPLANATION_ADDED = ("(g) every composite entry becomes one item of the class registered for its encoding, told that encoding, given exactly the content slice, appended once; (h) data-MIME / accept-MIME items and the authentication item are written as encoded headers (plus the authentication's own bytes) and read back through the header parser with the cursor advanced by what it consumed; lookup functions index their table with the argument unchanged; length guards are exact on both sides; writers in accumulator style are lowered as well. (i) the three extension parsers read their input to the end: the loop test is cursor < len(input) as linear forms; indexing a bytes object and bytes()/bytearray() copies are lowered like the struct reads they replace. (j) an item whose content is derived from its fields (the tag list) encodes the fields on every serialize().")
 EXPLANATION = EXPLANATION.replace(' Not decided', ' ' + EXPLANATION_ADDED + ' Not decided', 1) \
     if ' Not decided' in EXPLANATION else EXPLANATION + ' ' + EXPLANATION_ADDED
 ASSUMPTIONS = COMMON_ASSUMPTIONS
@@ -951,5 +951,38 @@ def rule_i(ctx):
                 problem is None, problem or 'continues exactly while cursor < len(input) (%d iteration paths)' % n)
 
 
+def rule_j(ctx):
+    """An item whose wire content is derived from its fields (the tag list) encodes those fields every time it is
+    serialised: serialize() stores the freshly encoded content on every path before it hands it out.  A content kept
+    from an earlier serialize() or parse() is stale as soon as the fields change."""
+    rep = ctx.report
+    base = ctx.repo.cls('rsocket.extensions.composite_metadata_item:CompositeMetadataItem')
+    n = 0
+    for k in sorted(ctx.repo.concrete_subclasses(base, include_self=False), key=lambda c: c.qualname):
+        ser = k.methods.get('serialize')
+        if ser is None:
+            continue
+        writes = [x for x in walk_local(ser.node) if isinstance(x, ast.Assign) and
+                  ast.unparse(x.targets[0]) == 'self.content']
+        if not writes:
+            continue
+        n += 1
+        ps = [p for p in ctx.paths(ser, k, inline_depth=0) if p.outcome == 'return']
+        ok, detail = bool(ps), ''
+        for p in ps:
+            st = [e for e in p.events if e.kind == 'store' and e.data['target'][0] == 'attr' and
+                  e.data['target'][2] == 'content']
+            if len(st) != 1:
+                ok, detail = False, ('a path of serialize() hands out self.content without encoding the fields again: '
+                                     'after the fields changed (tags assigned, parse() called) the old bytes go out')
+                continue
+            t = strip_epoch(st[0].data['value'].term)
+            if t[0] != 'call':
+                ok, detail = False, 'self.content is set to %s, not to the encoded fields' % fmt_term(t)
+        rep.add('C18.j', '%s.serialize / the fields are encoded on every call' % k.name, ser, ok,
+                detail or 'self.content = <encoder>() on all %d paths, then the inherited serialize()' % len(ps))
+    rep.require('C18.j', 'items whose content is derived from fields', n, 1)
+
+
 RULES = [('C18.a', rule_a), ('C18.b', rule_b), ('C18.c', rule_c), ('C18.d', rule_d), ('C18.e', rule_e),
-         ('C18.f', rule_f), ('C18.g', rule_entries), ('C18.h', rule_h), ('C12.e', rule_g), ('C18.i', rule_i)]
+         ('C18.f', rule_f), ('C18.g', rule_entries), ('C18.h', rule_h), ('C12.e', rule_g), ('C18.i', rule_i), ('C18.j', rule_j)]
